@@ -33,7 +33,8 @@ CALIBRATE = bool(os.environ.get('VERIF_CALIBRATE'))
 EPS = float(np.finfo(float).eps)
 METHODS = list(cm.METHODS)
 ORDERS = (2, 4)
-RATIOS = (4.0, 1.6)          # non-default step_ratio option (affine maps only: exact for every ratio)
+RATIOS = (4.0, 1.6, 'negative-steps')   # non-default step_ratio option; a user generator whose steps are all negative
+#                                         (affine maps only: exact for every ratio and either sign of the steps)
 K1 = 100.0
 AFFINE_UNITS = 1e4
 AFFINE_RATIO_REL = 1e-6
@@ -306,6 +307,9 @@ def do_jac(acc, orc, form, method, order, ratio=None):
     if ratio is not None:          # the step_ratio option (affine maps stay exact for every ratio)
         case, opts = case + (ratio,), dict(step_ratio=ratio)
         jc['step_ratio'] = ratio
+        if ratio == 'negative-steps':
+            from numdifftools.step_generators import MaxStepGenerator
+            opts = dict(step=MaxStepGenerator(base_step=-1.0, step_ratio=2.0, num_steps=10))
     rank = _rank(spec, order, JAC_FORMS.index(form))
     sclass, vclass = shape_class(m, n), value_class(spec, form)
     cells = ['jac/method=%s/order=%d' % (method, order), 'jac/form=%s' % form, 'jac/family=%s' % family,
@@ -322,7 +326,9 @@ def do_jac(acc, orc, form, method, order, ratio=None):
         cells = sorted(set(cells))
     want = expected_jac_shape(spec, form)
     head = 'Jacobian(f, method=%r, order=%d%s)(x) with f = %s, x = %r (%s)' % (
-        method, order, '' if ratio is None else ', step_ratio=%r' % ratio, ridge.describe(spec), orc.x, form)
+        method, order, '' if ratio is None else (', step_ratio=%r' % ratio if ratio != 'negative-steps' else
+                                               ', step=MaxStepGenerator(base_step=-1.0, step_ratio=2.0, num_steps=10)'),
+        ridge.describe(spec), orc.x, form)
     if ratio is not None:
         cells = cells + ['jac/step_ratio=%r' % ratio]
 
